@@ -316,8 +316,11 @@ func ruleChainLoad(c *Ctx, rule string) {
 					addp(K, "returned handler list has an origin other than the empty list and this protocol's append: "+why)
 				}
 			}
-			// success: nothing of the current iteration may be pending
+			// success: nothing of the current iteration may be pending, and each list was walked to its end
 			for _, lk := range loops {
+				if LeftLoopEarly(st, lk.hdr) {
+					addp(lk.K, fmt.Sprintf("success is returned at %s from inside the loop over the configured plugins (the loop's own test had not failed): the plugins listed after that point are silently not loaded", c.P.InstrPos(in)))
+				}
 				if st.seen["setup"+lk.K] && !st.seen["append"+lk.K] {
 					addp(lk.K, "success return after a setup call whose handler was not appended")
 				}
